@@ -118,6 +118,19 @@ func (f *Fn) match(p ast.Expr, e ast.Expr, b Binds) bool {
 			}
 		}
 	}
+	// a field of a parameter struct built in place: in.a for in := T{a: x} is x
+	if sel, ok := e.(*ast.SelectorExpr); ok && f.matchDepth < 6 {
+		if v := f.FieldOfLocalLit(sel); v != nil {
+			save := copyBinds(b)
+			f.matchDepth++
+			ok := f.match(p, v, b)
+			f.matchDepth--
+			if ok {
+				return true
+			}
+			restore(b, save)
+		}
+	}
 	// a conversion to the operand's own type is transparent: (string)(x) for a string x
 	if c, ok := e.(*ast.CallExpr); ok && len(c.Args) == 1 && f.matchDepth < 6 {
 		if tv, isT := f.Info().Types[c.Fun]; isT && tv.IsType() {
